@@ -400,6 +400,64 @@ let check_builtin_mismatch (lbc : str -> n list) (o : options) (first : bool) (p
                   else say "C03" "skip" "built-in variant differs at equal cost or outside the precondition"
                 end))
 
+(* ------------------------------------------------------------------ C07 at the text level: the lines of
+   each paragraph, read back as groups of the paragraph's fragments, must be the greedy
+   arrangement for the widths the paragraph's lines are measured against (greedy_b is the
+   extracted, proved checker).  Only the FIRST paragraph's first line carries the initial
+   indent.  `Unrecoverable: the lines are not groups of the model's fragments at all — that is
+   C01/C11/C12's business, not C07's. *)
+let recover_all (o : options) (first : bool) (bws : word list) (lines : str list) : word list list list =
+  (* every way of reading [lines] as consecutive groups of [bws] (at most 64 are returned) *)
+  let count = ref 0 in
+  let rec go first ws ls : word list list list =
+    if !count >= 64 then []
+    else
+      match ls with
+      | [] -> if ws = [] then (incr count; [ [] ]) else []
+      | l :: rest ->
+          let ind = if first then o.o_ii else o.o_si in
+          if ws = [] then (if l = ind && rest = [] then (incr count; [ [ [] ] ]) else [])
+          else begin
+            let n = List.length ws in
+            let acc = ref [] in
+            for k = 1 to n do
+              let g = take k ws in
+              if ind @ body g @ lastw_pen g = l then
+                acc := !acc @ List.map (fun gs -> g :: gs) (go false (drop k ws) rest)
+            done;
+            !acc
+          end in
+  go first bws lines
+
+let c07_text_level (lbc : str -> n list) (o : options) (text : str) (lines : str list) =
+  let zn (x : n) : Obj.t = Obj.repr (match x with N0 -> Z0 | Npos p -> Zpos p) in
+  (* `Ok if SOME reading of the lines as groups of fragments is greedy in every paragraph;
+     `Bad p if readings exist but paragraph p is greedy in none of them *)
+  let rec go first paras lines =
+    match paras with
+    | [] -> if lines = [] then `Ok else `Unrecoverable
+    | p :: rest ->
+        (match pipeline_words cw alnum lbc custom3 o first p with
+         | None -> `Unrecoverable
+         | Some bws ->
+             let total = List.length lines in
+             let lw = List.map zn (line_widths cw o first) in
+             let best = ref `Unrecoverable in
+             let m = ref 1 in
+             while !best <> `Ok && !m <= total do
+               let readings = recover_all o first bws (take !m lines) in
+               if readings <> [] then begin
+                 let greedy = bws = [] || List.exists (fun groups -> greedy_b numZ word_frag lw groups) readings in
+                 match go false rest (drop !m lines) with
+                 | `Unrecoverable -> ()
+                 | `Ok -> if greedy then best := `Ok else if !best = `Unrecoverable then best := `Bad p
+                 | `Bad q -> if !best = `Unrecoverable then best := `Bad q
+               end;
+               incr m
+             done;
+             !best) in
+  go true (split_le o.o_le text) lines
+
 let split_mismatch (s : string) : (string * string) option =
   (* CUSTOM-MISMATCH[a][b] *)
   let pre = "CUSTOM-MISMATCH[" in
@@ -470,6 +528,32 @@ let run (lineno : int) (lbc : str -> n list) ofit (args : string array) (impl : 
                           else say "C10" "FAIL" ("well-formed text: expected " ^ dec_of_n (sum_cw v))
               | None -> say "C10" "ok" "not-wf")
     | "ff" | "of" -> check_frag_op (f 0) f impl
+    | "walg" ->
+        (* WrapAlgorithm::wrap called directly on words with usize widths *)
+        let ws = dwords (f 1) and lwn = List.map n_of_dec (dlist (f 2)) in
+        let o = dopts ("0;lf;_;_;0;" ^ f 3 ^ ";a;n") in
+        let n = List.length ws in
+        let gs = dgroups impl in
+        (match partition_ok n gs with
+         | None -> say "C06" "ok" "walg"
+         | Some why -> say "C06" "FAIL" why);
+        if partition_ok n gs = None && n > 0 then begin
+          let zn (x : n) : Obj.t = Obj.repr (match x with N0 -> Z0 | Npos p -> Zpos p) in
+          let lwz = List.map zn lwn in
+          match o.o_alg with
+          | FirstFit ->
+              if greedy_b numZ word_frag lwz (groups_of ws gs) then say "C07" "ok" "walg"
+              else say "C07" "FAIL" "WrapAlgorithm::wrap(FirstFit): the lines are not the greedy arrangement for the given widths"
+          | OptimalFit p ->
+              let frs = List.map word_frag ws in
+              let zle (a : Obj.t) (b : Obj.t) = not (Z.ltb (Obj.obj b) (Obj.obj a)) in
+              let rec pre = function a :: (b :: _ as r) -> zle a.fpen b.fw && pre r | _ -> true in
+              if List.length lwn <= 2 && pre frs then begin
+                let ranges = List.map (fun (a, l) -> (nat_of_int a, nat_of_int (a + l))) gs in
+                if optimal_b p frs (List.map Obj.obj lwz) ranges then say "C03" "ok" "walg"
+                else say "C03" "FAIL" "WrapAlgorithm::wrap(OptimalFit): the arrangement fails the proved optimality checker optimal_b"
+              end else say "C03" "skip" "outside the precondition"
+        end
     | "ofu" ->
         if impl = "ERR" then say "C04" "FAIL" "optimal-fit reported overflow although all widths and penalties are usize-valued"
         else (match partition_ok (List.length (dlist (f 1))) (dgroups impl) with
@@ -591,6 +675,13 @@ let run (lineno : int) (lbc : str -> n list) ofit (args : string array) (impl : 
         (* C08 *)
         let ind_ok = List.for_all (fun x -> x) (List.mapi (fun i l -> is_prefix (if i = 0 then o.o_ii else o.o_si) l.txt) ls) in
         if ind_ok then say "C08" "ok" "" else say "C08" "FAIL" "a line does not start with its indent";
+        (* C07, text level *)
+        if o.o_alg = FirstFit && List.length ls <= 60 then begin
+          match c07_text_level lbc o text (List.map (fun l -> l.txt) ls) with
+          | `Ok -> say "C07" "ok" "text"
+          | `Bad p -> say "C07" "FAIL" ("a paragraph's lines are not the greedy arrangement of its fragments for the widths its lines are measured against: " ^ es p)
+          | `Unrecoverable -> say "C07" "skip" "lines are not groups of the model's fragments"
+        end;
         (* C01 *)
         (match c01_check o text ls with
          | None -> say "C01" "ok" ""
